@@ -49,7 +49,7 @@ def run(report, db, tier):
     mismatch(report, db, cg, M, P)
     R5 = report.rule('R09.5', 'EOF fallback: exactly EOFError, close '
                      'immediately, default version, handled')
-    shared.eof_fallback_ps(report, R5, db, S)
+    shared.eof_fallback_ps(report, R5, db, S, others_too=False)
     plain_status(report, db, S, M, P)
     R9 = report.rule('R09.9', 'the first frames of every connection are the '
                      'handshake and what connect()/status() queue after it: '
